@@ -4,6 +4,7 @@ use jrsonnet_evaluator::{
 	bail,
 	function::{builtin, FuncVal, NativeFn},
 	runtime_error,
+	stack::check_depth,
 	typed::{BoundedI32, BoundedUsize, Either2, FromUntyped},
 	val::{equals, ArrValue, IndexableVal},
 	Either, IStr, ObjValue, ObjValueBuilder, Result, ResultExt, Thunk, Val,
@@ -269,6 +270,7 @@ pub fn deep_join_inner(out: &mut String, arr: IndexableVal) -> Result<()> {
 	match arr {
 		IndexableVal::Str(s) => write!(out, "{s}").expect("no error"),
 		IndexableVal::Arr(arr) => {
+			let _guard = check_depth()?;
 			for ele in arr.iter() {
 				let indexable = IndexableVal::from_untyped(ele?)?;
 				deep_join_inner(out, indexable)?;
@@ -409,6 +411,7 @@ pub fn builtin_flatten_deep_array(value: Val) -> Result<Vec<Val>> {
 	fn process(value: Val, out: &mut Vec<Val>) -> Result<()> {
 		match value {
 			Val::Arr(arr) => {
+				let _guard = check_depth()?;
 				for ele in arr.iter() {
 					process(ele?, out)?;
 				}
@@ -438,6 +441,7 @@ pub fn builtin_prune(
 			_ => true,
 		}
 	}
+	let _guard = check_depth()?;
 	Ok(match a {
 		Val::Arr(a) => {
 			let mut out = Vec::new();
